@@ -42,6 +42,22 @@ def cases(draw, mode, nums=("frac",), tmax=2):
 
 
 @st.composite
+def forced_float_cases(draw):
+    p = draw(st.integers(2, 5))
+    t = draw(st.integers(1, 2 if p >= 3 else 1))
+    U, _ = draw(gen.knotvectors(degree=p, kmax=2))
+    # keep interior multiplicities >= t (feasible) by construction: raise them where needed
+    bk = gen.breaks_of(U)
+    V = [bk[0]] * (p + 1)
+    for z in bk[1:-1]:
+        V += [z] * min(p + 1, max(U.count(z), t + draw(st.integers(0, 1))))
+    V += [bk[-1]] * (p + 1)
+    n = len(V) - p - 1
+    P = draw(gen.ctrlpoints(n, draw(st.sampled_from([0, 0, 2]))))
+    return {"curve": {"U": V, "p": p, "P": P, "w": None, "num": draw(st.sampled_from(["float", "npfloat"]))}, "t": t}
+
+
+@st.composite
 def special_cases(draw):
     """Rational curves on an elevated space whose weights alone (or numerator alone) are reducible."""
     Ulow, plow = draw(gen.knotvectors(0, 2, 2))
@@ -319,6 +335,74 @@ def check_generic(case, out):
                         return
 
 
+def check_forced_float(case, out):
+    """Float data: degree_decrease(t, None) is still the constrained best approximation, to rounding."""
+    c = case["curve"]
+    ref = lib.case_state(c)  # (the rounded data)
+    t = case["t"]
+    classify(ref, t, out)
+    out.cls("num=" + c["num"])
+    klass = "forced;float"
+    newp = ref.p - t
+    newU = []
+    for z in oracle.breaks(ref.U):
+        m = oracle.mult(ref.U, z) - t
+        if m < 0:
+            newU = None
+            break
+        newU += [z] * m
+    if ref.w is not None or newp < 1 or newU is None:
+        out.exclude("not-a-forced-polynomial-reduction-to-degree>=1")
+        return
+    if oracle.in_space(ref, newU, newp):
+        out.exclude("representable (the exact facets cover it)")
+        return
+    out.nontrivial = len(oracle.breaks(ref.U)) > 2
+    curve = lib.build_curve(c)
+    try:
+        curve.degree_decrease(t, None)
+    except Exception as exc:
+        if not lib.from_library(exc):
+            raise
+        out.fail("forced-reduction-refused", klass,
+                 f"degree_decrease({t}, None) on U={ref.U} P={ref.P} raised {type(exc).__name__}: {exc}")
+        return
+    after = lib.state_of(curve)
+    if after.U != newU or after.p != newp:
+        out.fail("knotvector", klass, f"reduction gave {after.U} degree {after.p}, expected {newU}")
+        return
+    scale = max([abs(x) for pt in ref.P for x in pt] + [F(1)])
+    L = ref.U[-1] - ref.U[0]
+    nodes = oracle.breaks(newU)
+    for z in nodes:
+        a, b = oracle.ceval(ref, z), oracle.ceval(after, z)
+        if max(abs(x - y) for x, y in zip(a, b)) > F(1, 10 ** 8) * scale:
+            out.fail("forced-reduction-moves-knot-values", klass,
+                     f"degree_decrease({t}, None) on U={ref.U} P={ref.P}: value at knot {z} {[float(x) for x in a]} -> {[float(x) for x in b]}")
+            return
+    nt = len(newU) - newp - 1
+    Bn = [oracle.basis_row(newU, newp, newp, z) for z in nodes]
+    if oracle.rank(Bn) < len(nodes):
+        out.cls("forced:constraints-dependent")
+        return
+    free = oracle.nullspace(Bn, nt)
+    out.cls(f"forced:free-directions={min(len(free), 3)}")
+    bku = oracle.union_breaks(ref.U, newU)
+    for coefs in free:
+        gs = State(newU, newp, [(x,) for x in coefs], None, True)
+        gf = lambda u, gs=gs: oracle.ceval(gs, u)[0]  # noqa: E731
+        gmax = max(abs(x) for x in coefs)
+        for k in range(ref.dim):
+            rf = lambda u, k=k: oracle.ceval(ref, u)[k] - oracle.ceval(after, u)[k]  # noqa: E731
+            val = oracle.integral_product(rf, ref.p, gf, newp, bku)
+            if abs(val) > F(1, 10 ** 7) * scale * gmax * L:
+                out.fail("forced-reduction-not-best-approximation", klass,
+                         f"degree_decrease({t}, None) on float U={[float(u) for u in ref.U]} P={[[float(x) for x in pt] for pt in ref.P]}: "
+                         f"int (C-D)*g = {float(val):.3e} for the element {[float(x) for x in coefs]} of the degree-{newp} space that "
+                         f"vanishes at every remaining knot; D: P={[[float(x) for x in pt] for pt in after.P]}")
+                return
+
+
 FACETS = [
     Facet("elevate", lambda tier: cases("elevate", ("frac", "frac", "fracint"), 2 if tier == "quick" else 3),
           check_elevate, quick=600, thorough=5000, rule="degree_increase / degree setter, exact decision"),
@@ -330,4 +414,8 @@ FACETS = [
           rule="reduction of generic states: refuse+unchanged, or tolerance=None keeps knot values"),
     Facet("reduce-rational-special", lambda tier: special_cases(), check_generic, quick=320, thorough=2500,
           rule="rational curves whose weight function alone / numerator alone / constant weights are reducible"),
+    Facet("reduce-forced-float", lambda tier: forced_float_cases(), check_forced_float, quick=400, thorough=3000,
+          rule="float polynomial curves of degree 2..5 (the float code path integrates with another rule): "
+               "degree_decrease(t, None) keeps the values at the remaining knots and leaves a residual orthogonal to "
+               "every element of the lower space vanishing there, to 1e-7 relative"),
 ]
